@@ -17,7 +17,7 @@ def classify_destruct(T, arg):
     """-> element kind ('item' | 'key' | 'val') of a destruct argument, or None"""
     a = ir.top_nocast(arg)
     if T == 'List':
-        return 'item' if a[0] == 'local' else None
+        return 'item' if a[0] in ('local', 'param') else None
     if a[0] == 'call':
         nm = ir.callee_name(a)
         if nm in ELEM[T]:
@@ -29,7 +29,7 @@ def classify_destruct(T, arg):
     return None
 
 
-def path_profile(P, E, fn, T, path):
+def path_profile(P, E, fn, T, path, _depth=0):
     """ordered events of a path relevant to ownership"""
     out = []
     for ev in util.path_events(path):
@@ -43,7 +43,18 @@ def path_profile(P, E, fn, T, path):
                 if ('param', 0) in roots or nm == 'List_Free':
                     out.append(('kill', nm, ir.canon(tgt) if tgt is not None else None, ev['node']))
             elif nm in P.functions and P.functions[nm]['unit'] == fn['unit']:
-                out.append(('call', nm, tuple(ir.canon(a) for a in ev['args']), ev['node']))
+                # a straight-line same-unit helper that does the removal work (extracted routine) is spliced in
+                h = P.functions[nm]
+                spliced = False
+                if _depth < 1 and nm != fn['name'] and any(ir.callee_name(c2) in ('destruct', 'List_Free', 'free') for c2, _ in ir.all_calls(h['body'])):
+                    hg = P.cfg(h)
+                    hpaths = [pp for pp in hg.paths() if util.path_end(pp)[0] != 'term']
+                    if len(hpaths) == 1:
+                        sub = path_profile(P, E, h, T, hpaths[0], _depth + 1)
+                        out.extend([(k, a, b, ev['node']) for (k, a, b, nd) in sub if k != 'cond'])
+                        spliced = True
+                if not spliced:
+                    out.append(('call', nm, tuple(ir.canon(a) for a in ev['args']), ev['node']))
         elif ev['t'] == 'write':
             lhs = ir.top_nocast(ev['lhs'])
             if lhs[0] == 'arrow' and lhs[2] == 'nitems':
@@ -115,6 +126,23 @@ def check_remove_one(P, E, ctx, T, fname, shrink_loop=False):
         ctx.proved(rule, fname, site(fn), 'on all %d removing paths: destruct ×1 per owned part (%s) before any overwrite/free of element storage, count adjusted ×1' % (nrem, '+'.join(need)))
 
 
+class _Collect:
+    """stand-in context collecting the verdict of a delegated sub-check"""
+
+    def __init__(self):
+        self.obs = []
+        self.stats = {'paths': 0, 'functions': set(), 'call_sites': 0}
+
+    def fn(self, f):
+        pass
+
+    def proved(self, rule, key, s, what, detail=None):
+        self.obs.append(('proved', what, detail))
+
+    def refuted(self, rule, key, s, what, detail=None):
+        self.obs.append(('refuted', what, detail))
+
+
 def check_clear(P, E, ctx, T, fname, frees_field=None, sets_count=True, recursive=False):
     """teardown: the loop destructs every element (per iteration: one destruct per owned part, before the
     node is freed); whole-storage free only after the loop; count reset"""
@@ -126,6 +154,46 @@ def check_clear(P, E, ctx, T, fname, frees_field=None, sets_count=True, recursiv
     N = util.Norm(P, fn, inline=False)
     bad = None
     iters = 0
+    # the element loop may live in a same-unit helper that receives the container (extracted clean-up routine)
+    own_des = [n for (n, c) in g.nodes_calling('destruct')]
+    deleg = None
+    if not own_des:
+        selfs = {('param', fn['params'][0][0], 0)} | util.aliases_of_param(fn, 0)
+        for n in g.live():
+            if n['expr'] is None:
+                continue
+            for c in ir.calls(n['expr']):
+                nm = ir.callee_name(c)
+                h = P.functions.get(nm)
+                if h is not None and h['unit'] == fn['unit'] and nm != fname and c[2] and ir.top_nocast(c[2][0]) in selfs and \
+                        any(ir.callee_name(c2) == 'destruct' for c2, _ in ir.all_calls(h['body'])):
+                    deleg = (n, nm)
+    if deleg is not None:
+        dn, hname = deleg
+        sub = _Collect()
+        check_clear(P, E, sub, T, hname, None, sets_count=False, recursive=recursive)
+        inner_bad = [o for o in sub.obs if o[0] == 'refuted']
+        if inner_bad:
+            bad = (inner_bad[0][1], inner_bad[0][2])
+        ok2 = g.must_pass(g.exit, [dn['id']])
+        if not ok2:
+            bad = bad or ('the element clean-up helper %s is not called on every path' % hname, None)
+        if frees_field:
+            fr = [n for n in g.live() if n['expr'] is not None and any(ir.callee_name(c) == 'free' and N.canon(c[2][0]) == ('arrow', ('param', 0), frees_field) for c in ir.calls(n['expr']))]
+            if not (len(fr) == 1 and g.must_pass(fr[0]['id'], [dn['id']]) and g.must_pass(g.exit, [fr[0]['id']])):
+                bad = bad or ('the backing store `%s` must be freed exactly once, after the elements were destructed, on every normal path' % frees_field, None)
+        if sets_count:
+            for path in g.paths():
+                if util.path_end(path)[0] == 'term':
+                    continue
+                prof = path_profile(P, E, fn, T, path)
+                if not [p_ for p_ in prof if p_[0] == 'setcount' and p_[1] == ('int', 0)]:
+                    bad = bad or ('a normal exit leaves the element count unchanged after clearing', util.describe_path(g, path, 14))
+        if bad:
+            ctx.refuted(rule, fname, site(fn), bad[0], bad[1])
+        else:
+            ctx.proved(rule, fname, site(fn), 'delegates the element loop to %s (every element visited and destructed there); store released afterwards' % hname)
+        return
     for path in g.paths():
         end = util.path_end(path)
         if end[0] == 'term':
